@@ -240,4 +240,14 @@ SCHED_RULE = ("cases: fixed adversarial corpus + random DAGs (layered edge proba
 SCHED_ASSUME = ["a node function body runs inside [dispatch, observed-done] (futures semantics)", "node functions pure and terminating",
                 "K-sched takes the executed graph, compound priorities and flags from the arguments the real async_execute receives (layering, DESIGN 4.3)"]
 
+from . import engine_kgraph  # noqa: E402
+
+GRAPH_RULE = ("K-graph cases: fixed non-tree shapes (diamond, shared descendant at two depths, debug chain) + random DAGs with debug / setup nodes, tags (also tags equal to node ids), "
+              "constant arguments; per DAG the compound-priority table and 6 selection queries (executor / setup / call; target, exclude, root through id / tag / reference aliases; both debug settings; "
+              "error paths) compared with Priority.v / Select.v evaluated in coqc; executors are also run and the executed node set compared; "
+              "distinct = hash of the case; non-trivial = non-tree shape or debug/setup nodes present")
 REGISTRY = {p: dict(engines=[engine_ksched], rule=SCHED_RULE, assumptions=SCHED_ASSUME) for p in SCHED_PROPS}
+REGISTRY["C06"]["engines"] = [engine_ksched, engine_kgraph.run]
+REGISTRY["C06"]["rule"] = SCHED_RULE + " || " + GRAPH_RULE
+for _p in ("C07", "C12", "C13"):
+    REGISTRY[_p] = dict(engines=[engine_kgraph.run], rule=GRAPH_RULE, assumptions=["the node table (dependencies, priorities, debug/setup flags, tags) is read from the DAG the implementation built (layering)", "networkx primitives as modelled in Graph.v"])
